@@ -16,7 +16,7 @@ import (
 func init() {
 	register(&Property{
 		ID:          "C05",
-		Explanation: "R1 (lock discipline): state, until, the ratio controller and lastCheck are written only with the breaker's lock held exclusively, and the admission decision for non-standby states reads them under the exclusive lock. R2 (transition relation): a finite-domain abstract interpretation of the state field (set of possible states at each point, refined on `state == const` edges of CURRENT loads only — a Lock() or a store invalidates earlier loads — with callee analysis of the state setter) extracts, for every store of the state in every function that takes the lock, the set of (pre-state, new-state) pairs for ALL pre-states; it must be a subset of {standby->tripped, recovering->tripped, tripped->recovering, recovering->standby}, no self-loop. R3 (shielding): at every return of the admission routine that lets the request through the abstract state excludes 'tripped'; the only transition out of tripped is reachable only on an edge, evaluated under the exclusive lock, whose time relation has normal form now - until >= 0, and recovering->standby only on now - until > 0. R4: the state setter stores its until argument unchanged; at the trip site it is now + fallbackDuration, at the recovering site now + recoveryDuration with now = the clock read at that moment. R5: ServeHTTP runs the fallback exactly on the admission routine's true edge and the wrapped handler otherwise. R3 also rejects deadline comparisons made through integer timestamps (Unix/UnixNano/UnixMilli/UnixMicro: wrap outside 1678..2262 or truncate). R6 (liveness of the lock protocol, = C09.R4/R3): no Lock on a mutex that is in the must-lockset (RLock when held exclusively), including through String() of a %v-formatted receiver handed to a logger; every acquisition in package cbreaker is released on every path.",
+		Explanation: "R1 (lock discipline): state, until, the ratio controller and lastCheck are written only with the breaker's lock held exclusively, and the admission decision for non-standby states reads them under the exclusive lock. R2 (transition relation): a finite-domain abstract interpretation of the state field (set of possible states at each point, refined on `state == const` edges of CURRENT loads only — a Lock() or a store invalidates earlier loads — with callee analysis of the state setter) extracts, for every store of the state in every function that takes the lock, the set of (pre-state, new-state) pairs for ALL pre-states; it must be a subset of {standby->tripped, recovering->tripped, tripped->recovering, recovering->standby}, no self-loop. R3 (shielding): at every return of the admission routine that lets the request through the abstract state excludes 'tripped'; the only transition out of tripped is reachable only on an edge, evaluated under the exclusive lock, whose time relation has normal form now - until >= 0, and recovering->standby only on now - until > 0. R4: the state setter stores its until argument unchanged; at the trip site it is now + fallbackDuration, at the recovering site now + recoveryDuration with now = the clock read at that moment. R5: ServeHTTP runs the fallback exactly on the admission routine's true edge and the wrapped handler otherwise. R3 also rejects deadline comparisons made through integer timestamps (Unix/UnixNano/UnixMilli/UnixMicro: wrap outside 1678..2262 or truncate). R6 (liveness of the lock protocol, = C09.R4/R3): no Lock on a mutex that is in the must-lockset (RLock when held exclusively), including through String() of a %v-formatted receiver handed to a logger; every acquisition in package cbreaker is released on every path. R6 also: locks are always taken in one order (no A-then-B and B-then-A). R7 (= C18.R4): side-effect hooks run in their own goroutine.",
 		NotDecided: []string{
 			"timing at real clocks: a request admitted by the read-locked fast path an instant before the trip counts as 'arrived before'",
 		},
@@ -25,7 +25,7 @@ func init() {
 	})
 	register(&Property{
 		ID:          "C12",
-		Explanation: "The statement gives the formulas, so the guard's algebraic normal form is the property. R1: in the ratio controller the allow edge is exactly (allowed+1)/(allowed+denied+1) < 0.5*(now-start)/duration — both sides are rebuilt from SSA with the helper functions inlined and compared as rational functions (so 0.5/d*e, e/(2d) coincide), strictly, with the zero-denominator guard on that same denominator. R2: on the allow edge exactly one allowed++ and the result true, on the other edge exactly one denied++ and false (event counting over all paths). R3: a fresh controller (constructor: counters zero, start = now, duration = its argument) is created at, and only at, the tripped->recovering transition site, with the same recoveryDuration that defines until there, and stored into the breaker; the controller's counters are only touched under the breaker's exclusive lock. R4: recovering->standby happens on the now > until edge, recovering->tripped only through the condition check (C05.R2/R3, C18.R2 re-used). R5 (= C09.R3/R4): every lock acquisition in package cbreaker is released on every path to a return and no mutex is re-acquired while held.",
+		Explanation: "The statement gives the formulas, so the guard's algebraic normal form is the property. R1: in the ratio controller the allow edge is exactly (allowed+1)/(allowed+denied+1) < 0.5*(now-start)/duration — both sides are rebuilt from SSA with the helper functions inlined and compared as rational functions (so 0.5/d*e, e/(2d) coincide), strictly, with the zero-denominator guard on that same denominator. R2: on the allow edge exactly one allowed++ and the result true, on the other edge exactly one denied++ and false (event counting over all paths). R3: a fresh controller (constructor: counters zero, start = now, duration = its argument) is created at, and only at, the tripped->recovering transition site, with the same recoveryDuration that defines until there, and stored into the breaker; the controller's counters are only touched under the breaker's exclusive lock. R4: recovering->standby happens on the now > until edge, recovering->tripped only through the condition check (C05.R2/R3, C18.R2 re-used). R5 (= C09.R3/R4): every lock acquisition in package cbreaker is released on every path to a return and no mutex is re-acquired while held. R6: from the tripped->recovering transition every path to a return passes the ramp controller's admission routine (or the transition to standby). R7 (= C18.R3): a re-trip clears every metric.",
 		NotDecided: []string{
 			"real-clock granularity; the inductive step 'ratio after a refusal <= ramp' is a paper argument over the checked guard (recorded here, not machine-checked)",
 		},
@@ -34,7 +34,7 @@ func init() {
 	})
 	register(&Property{
 		ID:          "C18",
-		Explanation: "R1: the predicate.Def literal binds all eight operators; for each comparison operator the ORDERING SET of the predicate it constructs (the subset of {<,=,>} between the metric and the constant on which it is true) is derived by abstract evaluation through intLT/float64GT/..., not(), the l(c)||e(c) closures and the type switches, for int and float64 mappers alike, and must be EQ={=}, NEQ={<,>}, LT={<}, LE={<,=}, GT={>}, GE={>,=}; and/or are the short-circuit folds; the function map binds NetworkErrorRatio, ResponseCodeRatio(a,b,c,d) and LatencyAtQuantileMS(q) to closures over the breaker's metrics methods of the same name and argument order, the latter divided by one millisecond. R2: in the check routine the trip site is on the true edge of condition(c), the false edge returns without a state store; the evaluation is reachable only past a re-test of now against lastCheck made AFTER the exclusive lock was taken, and lastCheck := now + checkPeriod precedes it. R3: after the trip every path passes metrics.Reset() before returning; serve records the response then runs the check on every normal path. R4: the side-effect launcher is called only from the state setter, with onTripped exactly on the state==tripped edge and onStandby on the state==standby edge; it starts exactly one goroutine calling Exec once, guarded by nil; with no self-loop transitions (C05.R2) every launch corresponds to one real transition. R3 also requires the reset to be complete: RTMetrics.Reset resets or replaces every counter, the per-code map and the histogram on every path; RollingCounter.Reset zeroes and RollingHDRHistogram.Reset resets every element in a loop over the whole slice that is left only when exhausted. R5 (= C09.R1 for RTMetrics): every pair of conflicting accesses to the metrics shares an excluding lock, so no recorded response is lost.",
+		Explanation: "R1: the predicate.Def literal binds all eight operators; for each comparison operator the ORDERING SET of the predicate it constructs (the subset of {<,=,>} between the metric and the constant on which it is true) is derived by abstract evaluation through intLT/float64GT/..., not(), the l(c)||e(c) closures and the type switches, for int and float64 mappers alike, and must be EQ={=}, NEQ={<,>}, LT={<}, LE={<,=}, GT={>}, GE={>,=}; and/or are the short-circuit folds; the function map binds NetworkErrorRatio, ResponseCodeRatio(a,b,c,d) and LatencyAtQuantileMS(q) to closures over the breaker's metrics methods of the same name and argument order, the latter divided by one millisecond. R2: in the check routine the trip site is on the true edge of condition(c), the false edge returns without a state store; the evaluation is reachable only past a re-test of now against lastCheck made AFTER the exclusive lock was taken, and lastCheck := now + checkPeriod precedes it. R3: after the trip every path passes metrics.Reset() before returning; serve records the response then runs the check on every normal path. R4: the side-effect launcher is called only from the state setter, with onTripped exactly on the state==tripped edge and onStandby on the state==standby edge; it starts exactly one goroutine calling Exec once, guarded by nil; with no self-loop transitions (C05.R2) every launch corresponds to one real transition. R3 also requires the reset to be complete: RTMetrics.Reset resets or replaces every counter, the per-code map and the histogram on every path; RollingCounter.Reset zeroes and RollingHDRHistogram.Reset resets every element in a loop over the whole slice that is left only when exhausted. R5 (= C09.R1 for RTMetrics): every pair of conflicting accesses to the metrics shares an excluding lock, so no recorded response is lost. R1 also: ResponseCodeRatio compares code >= start and code < end (half-open ranges). R6 (= C20.R3): the recording writer records every status it is given (the last one wins) and wraps exactly the writer it was given.",
 		NotDecided: []string{
 			"numerical values of the ratios / quantiles (C17, hdrhistogram); parsing of the expression text (vulcand/predicate, trusted)",
 		},
@@ -1197,6 +1197,8 @@ func mutantsC05() []Mutant {
 		{Name: "setstate-unlocked-write", File: f, Old: "\tc.m.Lock()\n\tdefer c.m.Unlock()\n\n\t// Other goroutine could have updated the lastCheck variable before we grabbed mutex", New: "\tc.m.RLock()\n\tdefer c.m.RUnlock()\n\n\t// Other goroutine could have updated the lastCheck variable before we grabbed mutex", Expect: "C05.R"},
 		{Name: "deadline-via-unixnano", File: "cbreaker/cbreaker.go", Old: "\t\tif clock.Now().UTC().Before(c.until) {", New: "\t\tif clock.Now().UTC().UnixNano() < c.until.UnixNano() {", Expect: "C05.R3"},
 		{Name: "string-takes-rlock", File: "cbreaker/cbreaker.go", Old: "func (c *CircuitBreaker) String() string {\n", New: "func (c *CircuitBreaker) String() string {\n\tc.m.RLock()\n\tdefer c.m.RUnlock()\n", Expect: "C05.R6"},
+		{Name: "record-holds-counters-lock", File: "memmetrics/roundtrip.go", Old: "\tm.countersLock.Lock()\n\tm.total.Inc(1)", New: "\tm.countersLock.Lock()\n\tdefer m.countersLock.Unlock()\n\tm.total.Inc(1)", More: []Edit{{"memmetrics/roundtrip.go", "\t\tm.netErrors.Inc(1)\n\t}\n\tm.countersLock.Unlock()\n", "\t\tm.netErrors.Inc(1)\n\t}\n"}}, Expect: "C05.R6"},
+		{Name: "side-effects-synchronous", File: "cbreaker/cbreaker.go", Old: "\tgo func() {\n", New: "\tfunc() {\n", Expect: "C05.R7"},
 	}
 }
 
@@ -1213,6 +1215,7 @@ func mutantsC12() []Mutant {
 		{Name: "standby-on-before", File: g, Old: "\t\tif clock.Now().UTC().After(c.until) {\n\t\t\tc.setState(stateStandby, clock.Now().UTC())", New: "\t\tif !clock.Now().UTC().After(c.until) {\n\t\t\tc.setState(stateStandby, clock.Now().UTC())", Expect: "C12.R4"},
 		{Name: "elapsed-from-zero-start", File: f, Old: "\t\tstart:    clock.Now().UTC(),\n", New: "", Expect: "C12.R3"},
 		{Name: "standby-branch-leaks-lock", File: "cbreaker/cbreaker.go", Old: "\tc.m.Lock()\n\tdefer c.m.Unlock()\n\n\tc.log.Warn(\"%v is in error state\", c)\n", New: "\tc.m.Lock()\n\n\tc.log.Warn(\"%v is in error state\", c)\n\tif c.state != stateStandby {\n\t\tdefer c.m.Unlock()\n\t}\n", Expect: "C12.R5"},
+		{Name: "opening-request-not-counted", File: "cbreaker/cbreaker.go", Old: "\t\tc.setRecovering()\n\t\tfallthrough\n", New: "\t\tc.setRecovering()\n\t\treturn true\n", Expect: "C12.R6"},
 	}
 }
 
@@ -1234,5 +1237,7 @@ func mutantsC18() []Mutant {
 		{Name: "float-eq-as-lt", File: g, Old: "func float64EQ(m toFloat64, val interface{}) (hpredicate, error) {\n\tvalue, ok := val.(float64)\n\tif !ok {\n\t\treturn nil, fmt.Errorf(\"expected float64, got %T\", val)\n\t}\n\treturn func(c *CircuitBreaker) bool {\n\t\treturn m(c) == value", New: "func float64EQ(m toFloat64, val interface{}) (hpredicate, error) {\n\tvalue, ok := val.(float64)\n\tif !ok {\n\t\treturn nil, fmt.Errorf(\"expected float64, got %T\", val)\n\t}\n\treturn func(c *CircuitBreaker) bool {\n\t\treturn m(c) <= value", Expect: "C18.R1"},
 		{Name: "histogram-reset-partial", File: "memmetrics/histogram.go", Old: "\tfor _, b := range r.buckets {\n\t\tb.Reset()\n\t}\n", New: "\tfor _, b := range r.buckets[:r.idx+1] {\n\t\tb.Reset()\n\t}\n", Expect: "C18.R3"},
 		{Name: "statuscode-fastpath-rlock", File: "memmetrics/roundtrip.go", Old: "\tm.statusCodesLock.Lock()\n\tif c, ok := m.statusCodes[statusCode]; ok {\n\t\tc.Inc(1)\n\t\tm.statusCodesLock.Unlock()\n", New: "\tm.statusCodesLock.RLock()\n\tif c, ok := m.statusCodes[statusCode]; ok {\n\t\tc.Inc(1)\n\t\tm.statusCodesLock.RUnlock()\n", More: []Edit{{"memmetrics/roundtrip.go", "\t\treturn nil\n\t}\n\tm.statusCodesLock.Unlock()\n", "\t\treturn nil\n\t}\n\tm.statusCodesLock.RUnlock()\n"}}, Expect: "C18.R5"},
+		{Name: "range-end-inclusive", File: "memmetrics/roundtrip.go", Old: "\t\tif code < endA && code >= startA {", New: "\t\tif code <= endA && code >= startA {", Expect: "C18.R1"},
+		{Name: "proxywriter-first-status-wins", File: "utils/netutils.go", Old: "\tp.code = code\n\tp.w.WriteHeader(code)\n", New: "\tif p.code == 0 {\n\t\tp.code = code\n\t}\n\tp.w.WriteHeader(code)\n", Expect: "C18.R6"},
 	}
 }
